@@ -33,6 +33,10 @@ var currentHook []*compiled
 // nCauseOps: how many times the installed hook script prints the cause
 var nCauseOps int
 
+// nSVErr: SafeValue-marked errors in dispatched positions (rendered by the
+// real hook in both runs)
+var nSVErr int
+
 // hooked error kinds: errors that are neither SafeFormatter nor SafeMessager
 var hookedKinds = map[string]bool{"err": true, "perr": true, "stderr": true, "serr": true, "ierr": true, "errwrap": true, "nilerr": true,
 	"errstringer": true, "errfmter": true, "err!": true, "perr!": true, "errwrapv": true,
@@ -50,6 +54,17 @@ type expectedCall struct {
 func standInShape(v *Val, verb rune, dispatched bool, depth int, exp *[]expectedCall) *Val {
 	if v == nil {
 		return nil
+	}
+	if v.K == "sverr" {
+		// an error whose type is marked SafeValue: the hook renders it like any
+		// other error (under the safe override, which the stand-in cannot
+		// reproduce: the value stays as it is in both shapes, only the call is
+		// expected)
+		if dispatched {
+			*exp = append(*exp, expectedCall{kind: v.K, verb: verb})
+			nSVErr++
+		}
+		return v
 	}
 	if hookedKinds[v.K] {
 		if dispatched {
@@ -138,6 +153,7 @@ func checkC17(c *FmtCase) Result {
 		}
 	}
 	nCauseOps = 0
+	nSVErr = 0
 	for _, op := range c.Hook {
 		if op.K == "Cause" && c.HasHook {
 			nCauseOps++
@@ -216,9 +232,10 @@ func checkC17(c *FmtCase) Result {
 	if want.panicked {
 		return fail("stand-in run panicked: %v", want.panicVal)
 	}
-	if len(hookLog) != 0 {
-		return fail("the hook was called %d times in the stand-in run (for errors that are SafeFormatters, or in positions that are not dispatched)", len(hookLog))
+	if len(hookLog) != nSVErr {
+		return fail("the hook was called %d times in the stand-in run, want %d (only for SafeValue-marked errors; not for errors that are SafeFormatters, nor in positions that are not dispatched)", len(hookLog), nSVErr)
 	}
+	svCalls := append([]hookCall(nil), hookLog...)
 	// a panic in the hook is reported under the name "SafeFormatter", one in
 	// the stand-in's SafeFormat method under "SafeFormat"
 	// (a SafeFormat method called from the hook's own operands can panic as
@@ -231,7 +248,7 @@ func checkC17(c *FmtCase) Result {
 	}
 	// the hook was called exactly once per dispatched error, with the right verb
 	var wantKeys []string
-	for _, sc := range standinLog {
+	for _, sc := range append(append([]hookCall(nil), standinLog...), svCalls...) {
 		wantKeys = append(wantKeys, fmt.Sprintf("%T|%s|%c", sc.Err, safeErrorText(sc.Err), sc.Verb))
 	}
 	sort.Strings(wantKeys)
